@@ -10,6 +10,7 @@ use std::cell::RefCell;
 use std::fs::{File, OpenOptions};
 use std::io::{BufReader, Write};
 use std::rc::Rc;
+use std::sync::Arc;
 
 use serde_json::{json, Value as J};
 
@@ -342,6 +343,7 @@ pub fn run(ctx: &Ctx) -> i32 {
         col.layer("one very long line", nhuge, true, json!({"line_lengths": lens_tried, "append_patterns": ["at once", "half + rest", "64 KiB + rest", "line + rest", "line minus last byte, 2 bytes, rest"]}));
     }
     executor_layer(ctx, &col);
+    cli_follow_layer(&col);
     col.layer("iterator schedules", done, complete, json!({"contents": contents.len(), "max_chars": maxchars, "max_bytes": maxbytes, "cut_items": total, "capacities": CAPS}));
     finish(
         ctx,
@@ -552,7 +554,168 @@ fn huge_content(line_len: usize) -> Vec<u8> {
     content
 }
 
+/// position of the child's open file descriptions on `path` (from /proc/<pid>/fdinfo)
+fn child_positions(pid: u32, path: &str) -> Vec<u64> {
+    let mut out = Vec::new();
+    if let Ok(rd) = std::fs::read_dir(format!("/proc/{}/fd", pid)) {
+        for e in rd.flatten() {
+            if std::fs::read_link(e.path()).map(|l| l.to_string_lossy() == path).unwrap_or(false) {
+                if let Ok(info) = std::fs::read_to_string(format!("/proc/{}/fdinfo/{}", pid, e.file_name().to_string_lossy())) {
+                    if let Some(p) = info.lines().find_map(|l| l.strip_prefix("pos:").map(|v| v.trim().parse::<u64>().unwrap_or(u64::MAX))) {
+                        out.push(p);
+                    }
+                }
+            }
+        }
+    }
+    out
+}
+
+fn wait_until<F: Fn() -> bool>(secs: u64, f: F) -> bool {
+    let start = std::time::Instant::now();
+    while start.elapsed().as_secs() < secs {
+        if f() {
+            return true;
+        }
+        std::thread::sleep(std::time::Duration::from_millis(2));
+    }
+    f()
+}
+
+/// the command line program in follow mode (`-f`, with and without `--head`, on a named file and on `--stdin < file`):
+/// started on a file with `old` content, then `appended` chunk by chunk. The harness waits until the program's own file
+/// position shows that it has reached the end of the file before it appends (no sleeps decide the verdict), appends a
+/// sentinel line at the end and stops the program once the sentinel's record has been printed.
+/// Ok(delivered lines) or Err(machinery problem)
+fn cli_follow_case(stdin_mode: bool, head: bool, old: &[u8], appended: &[Vec<u8>]) -> Result<Option<Vec<String>>, String> {
+    use std::io::{BufRead, Write};
+    let bin = format!("{}/target/cli/release/sqlgrep", verif_dir());
+    if !std::path::Path::new(&bin).exists() {
+        return Ok(None);
+    }
+    let dir = sut::tmp_dir();
+    static CNT: std::sync::atomic::AtomicU64 = std::sync::atomic::AtomicU64::new(0);
+    let id = CNT.fetch_add(1, std::sync::atomic::Ordering::Relaxed);
+    let defp = format!("{}/c10_cli_def_{}_{}.txt", dir, std::process::id(), id);
+    let datap = format!("{}/c10_cli_data_{}_{}.log", dir, std::process::id(), id);
+    std::fs::write(&defp, "CREATE TABLE t(line = '(?s)^(.*)$', line[1] => x TEXT);").map_err(|e| e.to_string())?;
+    std::fs::write(&datap, old).map_err(|e| e.to_string())?;
+    let mut cmd = std::process::Command::new(&bin);
+    cmd.args(["-d", &defp]);
+    if stdin_mode {
+        cmd.arg("--stdin").stdin(std::fs::File::open(&datap).map_err(|e| e.to_string())?);
+    } else {
+        cmd.arg(&datap).stdin(std::process::Stdio::null());
+    }
+    cmd.arg("-f");
+    if head {
+        cmd.arg("--head");
+    }
+    cmd.args(["--format", "json", "-c", "SELECT input FROM t"]).stdout(std::process::Stdio::piped()).stderr(std::process::Stdio::null());
+    let mut child = cmd.spawn().map_err(|e| e.to_string())?;
+    let pid = child.id();
+    let lines: Arc<std::sync::Mutex<Vec<String>>> = Arc::new(std::sync::Mutex::new(Vec::new()));
+    let l2 = lines.clone();
+    let stdout = child.stdout.take().unwrap();
+    let reader = std::thread::spawn(move || {
+        for l in std::io::BufReader::new(stdout).lines().flatten() {
+            l2.lock().unwrap().push(l);
+        }
+    });
+    let cleanup = |child: &mut std::process::Child| {
+        let _ = child.kill();
+        let _ = child.wait();
+        std::fs::remove_file(&defp).ok();
+        std::fs::remove_file(&datap).ok();
+    };
+    // start-up: some descriptor of the program on the data file stands at the end of the old content
+    let mut size = old.len() as u64;
+    let at_end = |size: u64| child_positions(pid, &datap).iter().any(|p| *p == size);
+    if !wait_until(20, || at_end(size)) {
+        cleanup(&mut child);
+        let _ = reader.join();
+        return Err(format!("the program did not reach the end of the file within 20 s (stdin_mode={}, head={})", stdin_mode, head));
+    }
+    let mut f = std::fs::OpenOptions::new().append(true).open(&datap).map_err(|e| e.to_string())?;
+    for c in appended {
+        f.write_all(c).map_err(|e| e.to_string())?;
+        size += c.len() as u64;
+        wait_until(10, || at_end(size));
+    }
+    f.write_all(b"__end__\n").map_err(|e| e.to_string())?;
+    let seen = wait_until(15, || lines.lock().unwrap().iter().any(|l| l.contains("__end__")));
+    cleanup(&mut child);
+    let _ = reader.join();
+    let got: Vec<String> = lines.lock().unwrap().iter().filter(|l| !l.is_empty()).map(|l| serde_json::from_str::<J>(l).ok().and_then(|j| j["input"].as_str().map(|s| s.to_string())).unwrap_or_else(|| format!("<{}>", l))).collect();
+    if !seen {
+        let mut g = got;
+        g.push("<the sentinel line appended last was not delivered within 15 s>".into());
+        return Ok(Some(g));
+    }
+    Ok(Some(got.into_iter().take_while(|l| l != "__end__").collect()))
+}
+
+fn cli_follow_layer(col: &Collector) {
+    let olds: [&[u8]; 3] = [b"", b"o1\no2\n", b"x\n"];
+    let appends: Vec<Vec<Vec<u8>>> = vec![vec![b"n1\n".to_vec()], vec![b"n1\nn2\n".to_vec()], vec![b"n".to_vec(), b"1\n".to_vec()]];
+    let mut cases = Vec::new();
+    for stdin_mode in [false, true] {
+        for head in [false, true] {
+            for (oi, o) in olds.iter().enumerate() {
+                // without --head the start-up seek to the end of an empty file cannot be observed from outside (the
+                // position is 0 before and after it), so an append could overtake it: that combination is left to
+                // the hook-driven executor layer
+                if o.is_empty() && !head {
+                    continue;
+                }
+                for (ai, _) in appends.iter().enumerate() {
+                    cases.push((stdin_mode, head, oi, ai));
+                }
+            }
+        }
+    }
+    let missing = std::sync::atomic::AtomicBool::new(false);
+    par_for(cases.len() as u64, |i| {
+        let (stdin_mode, head, oi, ai) = cases[i as usize];
+        let r = cli_follow_case(stdin_mode, head, olds[oi], &appends[ai]);
+        col.eval(1);
+        match r {
+            Ok(None) => missing.store(true, std::sync::atomic::Ordering::Relaxed),
+            Err(e) => col.note(format!("command-line follow case skipped: {}", e)),
+            Ok(Some(got)) => {
+                col.nontrivial(h64(&("cli-follow", stdin_mode, head, oi, ai)));
+                let mut all: Vec<u8> = if head { olds[oi].to_vec() } else { Vec::new() };
+                for c in &appends[ai] {
+                    all.extend_from_slice(c);
+                }
+                let want: Vec<String> = String::from_utf8_lossy(&all).lines().map(|l| l.to_string()).collect();
+                if got != want {
+                    col.fail(fail(
+                        format!("follow-cli:{}:{}:{}", if stdin_mode { "stdin" } else { "file" }, if head { "head" } else { "tail-start" }, if got.len() > want.len() { "extra-delivery" } else if got.len() < want.len() { "line-lost" } else { "line-content-differs" }),
+                        format!("sqlgrep {} -f{} on a file holding {:?}, then appended {:?}: delivered {:?}, expected {:?}", if stdin_mode { "--stdin <" } else { "" }, if head { " --head" } else { "" }, String::from_utf8_lossy(olds[oi]), appends[ai].iter().map(|c| String::from_utf8_lossy(c).to_string()).collect::<Vec<_>>(), got, want),
+                        json!({"layer": "cli-follow", "stdin": stdin_mode, "head": head, "old": oi, "append": ai}),
+                        json!(want),
+                        json!(got),
+                        (oi * 10 + ai) as u64,
+                    ));
+                }
+            }
+        }
+    });
+    if missing.load(std::sync::atomic::Ordering::Relaxed) {
+        col.note("CLI binary not built: command-line follow layer skipped".into());
+    } else {
+        col.layer("command line program in follow mode (file / --stdin, with / without --head; synchronised on the program's file position)", cases.len() as u64, true, json!({"old_contents": ["(empty, --head only)", "o1 LF o2 LF", "x LF"], "appends": ["n1 LF", "n1 LF n2 LF", "n | 1 LF"]}));
+    }
+}
+
 pub fn replay(case: &J) -> Vec<Failure> {
+    if case["layer"].as_str() == Some("cli-follow") {
+        let col = Collector::new();
+        cli_follow_layer(&col);
+        let f = col.failures.lock().unwrap();
+        return f.values().flat_map(|v| v.iter().cloned()).filter(|f| f.case == *case).collect();
+    }
     if case["layer"].as_str() == Some("huge") {
         let content = huge_content(case["line_len"].as_u64().unwrap() as usize);
         let chunks: Vec<usize> = case["chunks"].as_array().unwrap().iter().map(|x| x.as_u64().unwrap() as usize).collect();
